@@ -54,7 +54,16 @@ def gen_conc_op(g, model, tag, unique, lo, hi, sess):
 def c09(tapes, params):
     # C09 is about tag storage seen by several threads: the storage accessors get most of the focused runs
     params.setdefault('focus_weights', {'__setitem__': 14, '__getitem__': 10, 'produce': 4})
+    storm = bool(params.get('storm'))
+    if storm:
+        # bundle storm: every session sends Multiple Service Packets at the same time, pre-emption is
+        # confined to the deferred parsing of bundle members (which re-enters the shared Object parser),
+        # and a thread that releases a shared lock is often held back right there
+        params.setdefault('focus_fn', 'state_multiple_service.terminate')
     w = EnipWorld(tapes, params, preempt=True)
+    if storm:
+        w.sched.unlock_hold = (1, 3)
+        w.sched.preempt_left = max(w.sched.preempt_left, 2)
     g = w.gen
     nsess = g.weighted([(1, 2), (3, 3), (3, 4), (2, params.get('max_sessions', 5))], 'nsess')
     # few short tags so that histories stay checkable and ranges overlap
@@ -81,7 +90,7 @@ def c09(tapes, params):
         s.connect()
         s.register()
         s.connected = False
-        if g.chance(1, 5, 'conn?'):
+        if not storm and g.chance(1, 5, 'conn?'):
             r = s.forward_open(large=bool(g.draw(2, 'lg')))
             s.connected = r is not None and r.status == 0
         ready['n'] += 1
@@ -100,7 +109,7 @@ def c09(tapes, params):
             else:
                 lo, hi = 0, L
                 stats['overlap_ops'] += 1
-            bundle = g.chance(1, 4, 'bundle?') and not s.connected
+            bundle = g.chance(3 if storm else 1, 4, 'bundle?') and not s.connected
             if bundle:
                 ops = [gen_conc_op(g, w.model, g.choice(tags, 'btag'), unique, 0, 1, i) for _ in range(g.between(2, 4, 'nb'))]
                 ops = [dict(o) for o in ops]
